@@ -2,6 +2,8 @@ import Pi2.Codec
 import Pi2.Notation
 import Pi2.Match
 import Pi2.Rules
+import Pi2.Tracker
+import Pi2.Deserialize
 import Pi2.PrettyPat
 /-!
 # Wire syntax of the correspondence protocol (DESIGN.md §9b): S-expressions
@@ -174,3 +176,69 @@ partial def ppOfSexp : Sexp → Option PP
   | .list [.atom "ssub", p, n, q] => do pure (.ssub (← ppOfSexp p) (← nat? n) (← ppOfSexp q))
   | .list (.atom "napp" :: i :: args) => do pure (.napp (← nat? i) (← args.mapM ppOfSexp))
   | _ => none
+
+
+open Sexp in
+def ttermOfSexp : Sexp → Option TTerm
+  | .list [.atom "pattern", p] => do pure (.pat (← npatOfSexp p))
+  | .list [.atom "proved", p] => do pure (.proved (← npatOfSexp p))
+  | _ => none
+
+open Sexp in
+def callOfSexp : Sexp → Option Call
+  | .list [.atom "evar", n] => do pure (.evar (← nat? n))
+  | .list [.atom "svar", n] => do pure (.svar (← nat? n))
+  | .list [.atom "symbol", n] => do pure (.symbol (← nat? n))
+  | .list [.atom "metavar", n, a, b, c, d, e] => do
+      pure (.metavar (← nat? n) (← natList? a) (← natList? b) (← natList? c) (← natList? d) (← natList? e))
+  | .list [.atom "implies"] => some .implies
+  | .list [.atom "app"] => some .app
+  | .list [.atom "exists", n] => do pure (.ex (← nat? n))
+  | .list [.atom "mu", n] => do pure (.mu (← nat? n))
+  | .list [.atom "esubst", n] => do pure (.esubst (← nat? n))
+  | .list [.atom "ssubst", n] => do pure (.ssubst (← nat? n))
+  | .list [.atom "prop1"] => some .prop1
+  | .list [.atom "prop2"] => some .prop2
+  | .list [.atom "prop3"] => some .prop3
+  | .list [.atom "quantifier"] => some .quantifier
+  | .list [.atom "mp"] => some .mp
+  | .list [.atom "gen", n] => do pure (.gen (← nat? n))
+  | .list [.atom "instantiate", ks] => do pure (.instantiate (← natList? ks))
+  | .list [.atom "instantiate-pattern", ks] => do pure (.instantiatePattern (← natList? ks))
+  | .list [.atom "pop"] => some .pop
+  | .list [.atom "save"] => some .save
+  | .list [.atom "load", t] => do pure (.load (← ttermOfSexp t))
+  | .list [.atom "publish-proof"] => some .publishProof
+  | .list [.atom "publish-axiom"] => some .publishAxiom
+  | .list [.atom "publish-claim"] => some .publishClaim
+  | .list [.atom "into-claim"] => some .intoClaim
+  | .list [.atom "into-proof"] => some .intoProof
+  | _ => none
+
+def ttermToStr : TTerm → String
+  | .pat p => s!"(pattern {npatToStr p})"
+  | .proved p => s!"(proved {npatToStr p})"
+
+def phaseToStr : Phase → String
+  | .gamma => "gamma" | .claim => "claim" | .proof => "proof"
+
+def pystToStr (s : PySt) : String :=
+  "(pystate " ++ phaseToStr s.phase ++ " (stack " ++ " ".intercalate (s.stack.reverse.map fun (t, _) => ttermToStr t) ++
+    ") (memory " ++ " ".intercalate (s.memory.map ttermToStr) ++ ") (claims " ++
+    " ".intercalate (s.claims.map npatToStr) ++ "))"
+
+def hexOfBytes (bs : List Nat) : String :=
+  if bs.isEmpty then "-" else
+  let hexDigit (n : Nat) : Char := if n < 10 then Char.ofNat (48 + n) else Char.ofNat (87 + n)
+  String.ofList (bs.flatMap fun b => [hexDigit (b / 16 % 16), hexDigit (b % 16)])
+
+
+def ttermToStrX : TTerm → String
+  | .pat p => s!"(pattern {patToStr p.expand})"
+  | .proved p => s!"(proved {patToStr p.expand})"
+
+/-- state with every term fully expanded -/
+def pystToStrX (s : PySt) : String :=
+  "(pystate " ++ phaseToStr s.phase ++ " (stack " ++ " ".intercalate (s.stack.reverse.map fun (t, _) => ttermToStrX t) ++
+    ") (memory " ++ " ".intercalate (s.memory.map ttermToStrX) ++ ") (claims " ++
+    " ".intercalate (s.claims.map fun c => patToStr c.expand) ++ "))"
